@@ -236,7 +236,7 @@ pub fn run(ctx: &Ctx) -> Report {
     });
     let mut rep = Report::new(
         st,
-        "jobs = every (version, level, mode) cell x {all lengths leaving 0..12 spare bits, lengths 0..5 and three mid lengths (all residues mod 3 / mod 2)}, 20 extra random lengths per cell at the count-width class edges (v9/10/26/27) (thorough: every length for v1-10, 26-28, 39-40, random elsewhere), 13 payload generators rotating, + lengths 2^k-1, 2^k, 2^k+1 (k = 3..12) at the smallest version, one above and version 40, + every entry of the dictionary of real-world prefixes and magic byte sequences (both URL-scheme cases, byte order marks, GS1/AIM escapes, control bytes, multi-byte text) alone and with tails in its own mode and in Byte mode + crafted byte payloads (blocks of padding pattern / zeros / identical blocks; data area equal to mask patterns / uniform); the data codewords recovered from the module values (unmask, zig-zag, de-interleave; no lenient parsing) are compared bit for bit with the oracle's strict ISO 7.4 encoder (mode indicator, count width, group packing, terminator min(4,rest), zero bits to the byte boundary, 0xEC/0x11 pads to capacity); distinct key = (options, len, payload hash); every case non-trivial (even the empty segment exercises terminator and pads)",
+        "jobs = every (version, level, mode) cell x {all lengths leaving 0..12 spare bits, lengths 0..5 and three mid lengths (all residues mod 3 / mod 2)}, 20 extra random lengths per cell at the count-width class edges (v9/10/26/27) (thorough: every length for v1-10, 26-28, 39-40, random elsewhere), 17 payload generators rotating, + lengths 2^k-1, 2^k, 2^k+1 (k = 3..12) at the smallest version, one above and version 40, + every entry of the dictionary of real-world prefixes and magic byte sequences (both URL-scheme cases, byte order marks, GS1/AIM escapes, control bytes, multi-byte text) alone and with tails in its own mode and in Byte mode + crafted byte payloads (blocks of padding pattern / zeros / identical blocks; data area equal to mask patterns / uniform); the data codewords recovered from the module values (unmask, zig-zag, de-interleave; no lenient parsing) are compared bit for bit with the oracle's strict ISO 7.4 encoder (mode indicator, count width, group packing, terminator min(4,rest), zero bits to the byte boundary, 0xEC/0x11 pads to capacity); distinct key = (options, len, payload hash); every case non-trivial (even the empty segment exercises terminator and pads)",
     );
     rep.expected_sets = vec![("version_level", 160), ("class_mode", 9), ("spare_bits_0_to_12", 13), ("mode_residue", 6), ("pad_parity", 3)];
     rep.required_sets = vec![("version_level", 160), ("class_mode", 9), ("spare_bits_0_to_12", 13), ("mode_residue", 6)];
